@@ -66,6 +66,10 @@ def result(query, verdict, expect, dt, bounds, extra=None, raw=None):
          "stats": {"solver_s": round(dt, 3)}}
     if not ok:
         r["why"] = f"solver verdict {verdict}, expected {expect}"
+        if ":reach" in query and verdict == "unsat":
+            # a reachability / vacuity witness: the situation it stands for is not reached by any encoded path
+            r["outcome"] = "inconclusive"
+            r["why"] = "vacuity witness not reachable in the encoding (the violation query decides nothing about this situation)"
     if extra:
         r.update(extra)
     return r
@@ -404,6 +408,10 @@ def run(prop, ctx, log):
             if thorough:
                 out += seqfold.c03_queries(repo, fl, text, 8, log, native, result)[0]
             return out
+        if prop in ("C09", "C10"):
+            import reloadk
+            fl, text = load_functions(os.environ.get("VERIF_REPO", "/repo"), scratch, raw=True)
+            return reloadk.reload_queries(fl, log, native, result)
         if prop in ("C01", "C02"):
             import shards
             fl, text = load_functions(os.environ.get("VERIF_REPO", "/repo"), scratch, raw=True)
